@@ -19,7 +19,7 @@ MODULE = 'PyTough.Props.C18'
 TARGETS = ['PyTough.Props.C18', 'drv_c18']
 THEOREMS = ['Props.C18.' + t for t in [
     'surface_recovery', 'surface_recovery_above_top', 'missing_direction_spacing',
-    'direction_track_sizes', 'next_block_unique', 'rectangle_half_width', 'rotation_inverse']]
+    'direction_track_sizes', 'next_block_unique', 'find_surface_on_line', 'rectangle_half_width', 'rotation_inverse']]
 LEVEL_TEXT = ('Partial proof: Lean theorems about the executable model of rectgeo for the three core steps (the surface formula inverts '
               'block_centre/block_volume for a surface inside a layer and above the top layer; the spacing of a single-block direction is '
               'volume / product of the doubled distances; following a direction along a line of blocks visits exactly that line with a unique '
